@@ -307,7 +307,33 @@ def check_fresh_state(rep: Report, prog: Program) -> None:
             if isinstance(n, ast.Call) and any(t.kind == "ctor" and t.cls is not None and t.cls.qual == "redress.policy.state:_RetryState" for t in prog.resolve_call(n, fi)):
                 sites.append((fi, n))
     by_runner = {q: [n for fi, n in sites if fi.qual == q] for q in RUNNERS.values()}
+    # a factory that did not exist when the rules were written, called only by the runners, whose single construction
+    # is what it returns (`return _RetryState(...)`): calling it *is* constructing the state - its call sites in the
+    # runners are judged like constructor sites
+    factories = set()
+    for fi, n in list(sites):
+        if fi.qual in RUNNERS.values() or not owned_by(prog, fi, tuple(RUNNERS.values())):
+            continue
+        own_sites = [m for g, m in sites if g is fi]
+        rets = [r for r in prog._own_nodes(fi.node) if isinstance(r, ast.Return) and r.value is not None]
+        direct = all(r.value is own_sites[0] for r in rets)
+        via_local = False
+        if not direct and len(own_sites) == 1:
+            asg = [a for a in prog._own_nodes(fi.node) if isinstance(a, ast.Assign) and a.value is own_sites[0] and len(a.targets) == 1 and isinstance(a.targets[0], ast.Name)]
+            via_local = len(asg) == 1 and all(isinstance(r.value, ast.Name) and r.value.id == asg[0].targets[0].id or (isinstance(r.value, ast.Tuple) and any(isinstance(x, ast.Name) and x.id == asg[0].targets[0].id for x in r.value.elts)) for r in rets)
+        if len(own_sites) == 1 and rets and (direct or via_local):
+            factories.add(fi.qual)
+    if factories:
+        for q in RUNNERS.values():
+            rf = prog.func(q)
+            for c in prog._own_nodes(rf.node):
+                if isinstance(c, ast.Call) and any(t.kind == "repo" and t.func is not None and t.func.qual in factories for t in prog.resolve_call(c, rf)):
+                    by_runner[q].append(c)
     for fi, n in sites:
+        if fi.qual in factories:
+            rep.instance("R1.5", f"ctor-site|{fi.qual}|factory")
+            rep.ok("R1.5")
+            continue
         if fi.qual not in RUNNERS.values():
             rep.instance("R1.5", f"ctor-site|{fi.qual}")
             rep.fail("R1.5", f"ctor-outside-runner|{fi.qual}", f"_RetryState constructed in {fi.qual} (a state that outlives one call would carry counters over)", where=fi.where(n), function=fi.qual)
@@ -321,7 +347,7 @@ def check_fresh_state(rep: Report, prog: Program) -> None:
         n = ns[0]
         in_loop = any(n in list(ast.walk(l)) for l in prog._own_nodes(fi.node) if isinstance(l, (ast.For, ast.While)))
         assign = [a for a in prog._own_nodes(fi.node) if isinstance(a, ast.Assign) and a.value is n]
-        local = bool(assign) and all(isinstance(t, ast.Name) for t in assign[0].targets)
+        local = bool(assign) and all(isinstance(t, ast.Name) or (isinstance(t, ast.Tuple) and all(isinstance(x, ast.Name) for x in t.elts)) for t in assign[0].targets)
         top_level = bool(assign) and assign[0] in fi.node.body
         if in_loop or not local or not top_level:
             rep.fail("R1.5", f"{name}|ctor-placement", f"{q}: _RetryState must be built once, unconditionally, before the loop and bound to a local (in_loop={in_loop}, local={local}, unconditional={top_level})", where=fi.where(n), function=q)
